@@ -97,6 +97,18 @@ def sibling_names_tree(case_collision):
     return spec
 
 
+def empty_leaf_tree():
+    """The hand-written tree with one leaf directory (the first that nobody refers to) left without types:
+    its protocol.xml is '<protocol></protocol>', its generated package must exist all the same."""
+    for leaf in ("pub/server", "map", "net/client", "net/server"):
+        spec = campaign.corpus_spec()
+        f = spec.files[leaf]
+        f.enums, f.structs, f.packets = [], [], []
+        if not grammar.check(spec):
+            return spec
+    return campaign.corpus_spec()
+
+
 class _Relabel:
     """Every violation on the case-collision tree is the known finding, whatever its symptom."""
 
@@ -112,7 +124,7 @@ class _Relabel:
 
 def shards(tier, seed):
     out = []
-    for ti in [-1, 2000, 3000, 3001] + list(range(TREES[tier])) + [1000 + k for k in range(N_COLLISION[tier])]:
+    for ti in [-1, 2000, 3000, 3001, 3002] + list(range(TREES[tier])) + [1000 + k for k in range(N_COLLISION[tier])]:
         for part in range(4):
             out.append({"tree": ti, "part": part, "parts": 4})
     return out
@@ -138,6 +150,9 @@ def run(shard, rec, tier, seed):
         rec.count("sibling-name-trees")
         if ti == 3001:
             rec = _Relabel(rec)
+    elif ti == 3002:
+        spec = empty_leaf_tree()
+        rec.count("empty-leaf-trees")
     elif ti == 2000:
         spec = cross_tree()
         rec.count("cross-reference-trees")
